@@ -48,6 +48,7 @@ Definition pload (s : pstate) : pstate :=
 Definition pstep (s : pstate) (o : op) : pstate :=
   match o with
   | OSet u pw => {| pcur := set_pw (pcur s) u (Some pw); psaved := psaved s |}
+  | OSetRefused _ _ => s      (* a refused change changes nothing *)
   | OSave => {| pcur := pcur s; psaved := Some (pcur s) |}
   | OLoad => pload s
   | OReset keep => {| pcur := if keep then pcur s else no_pws; psaved := None |}
@@ -59,6 +60,8 @@ Definition prun (s : pstate) (ops : list op) : pstate := fold_left pstep ops s.
 (* API-level histories *)
 Inductive api_op :=
 | APatch (l : list (user * string))   (* PATCH /device with these password attributes: set each, then save *)
+| APatchRefused (u : user) (pw : string)
+                                      (* PATCH /device with one password the system password command refuses: 500, no save *)
 | APut                                (* PUT /device: reset preserving the hashes, load, (other attributes), save *)
 | AFactoryReset                       (* POST /reset {factory: true}: reset, then the reboot it schedules *)
 | ARestart.                           (* the server is restarted *)
@@ -66,6 +69,7 @@ Inductive api_op :=
 Definition api_ops (a : api_op) : list op :=
   match a with
   | APatch l => map (fun '(u, pw) => OSet u pw) l ++ [OSave]
+  | APatchRefused u pw => [OSetRefused u pw]
   | APut => [OReset true; OLoad; OSave]
   | AFactoryReset => [OReset false; ORestart]
   | ARestart => [ORestart]
@@ -90,6 +94,15 @@ Fixpoint last_password_from (d : string) (l : list api_op) (u : user) : string :
   end.
 
 Definition last_password (l : list api_op) (u : user) : string := last_password_from "" l u.
+
+(* the admin password of a slave after the forwarded PATCH /device requests that succeeded (body admin_password or none):
+   the last one submitted - whatever it is, the empty password included; the hub must know exactly that one *)
+Fixpoint slave_password (pw : string) (sops : list (option string)) : string :=
+  match sops with
+  | [] => pw
+  | Some q :: r => slave_password q r
+  | None :: r => slave_password pw r
+  end.
 
 (* ---------------------------------------------------------------------------------------------------------------- *)
 (* 2. the authentication oracle *)
